@@ -57,7 +57,7 @@ func genC34(tier string, seed uint64, idx int) *simkit.Plan {
 			delay = 0
 		}
 		p.Add(simkit.St("use", rng.Uint64(), "i", rng.Intn(assigns), "op", []string{"upload", "upload", "delete", "read"}[rng.Intn(4)],
-			"tok", []string{"own", "own", "own", "other", "suffix", "none", "wrongkey", "algnone", "fresh", "garbage", "nbf", "readtok-reused"}[rng.Intn(12)], "delay", delay, "ms", rng.Intn(1000)))
+			"tok", []string{"own", "own", "own", "other", "suffix", "none", "wrongkey", "algnone", "fresh", "garbage", "nbf", "readtok-reused", "prefixclaim"}[rng.Intn(13)], "delay", delay, "ms", rng.Intn(1000)))
 	}
 	return p
 }
@@ -197,6 +197,14 @@ func execC34(r *simkit.Run) {
 				tok, _ = jwt.NewWithClaims(jwt.SigningMethodNone, c).SignedString(jwt.UnsafeAllowNoneSignatureType)
 			case "garbage":
 				tok = "abc.def.ghi"
+			case "prefixclaim":
+				// right key, unexpired, but the file-id claim is only a PREFIX of the target's id (the id cut short,
+				// or just the volume): it names another file, or none
+				claim := f.fid[:len(f.fid)-2]
+				if st.Seed%2 == 0 {
+					claim = f.fid[:strings.Index(f.fid, ",")+1]
+				}
+				tok = string(security.GenJwt(security.SigningKey(signKey), 3600, claim))
 			case "nbf":
 				// right key, right file, not expired - but not valid before an hour from now
 				c := security.SeaweedFileIdClaims{Fid: f.fid, StandardClaims: jwt.StandardClaims{ExpiresAt: time.Now().Unix() + 7200, NotBefore: time.Now().Unix() + 3600}}
